@@ -18,6 +18,7 @@ section `ring` compares with the real cells):
 * `tearOff_push` — pushing a fresh holder in front and tearing it off again gives the ring back (a touch that is undone);
 * `move_preserves_members` — the provider's move (tear off from one ring, push in front of the other) keeps the union of
   the two rings' members and the total count;
+* `nodup_tearOff` / `nodup_push` / `move_preserves_nodup` — the move keeps both rings duplicate-free and disjoint;
 * `prev_mem` — `Prev()`/`Next()` of a member is a member (the sweeper never leaves the ring).
 -/
 namespace Logrange.Props.C15Ring
@@ -154,6 +155,31 @@ theorem prev_mem (r : Ring) (e : Nat) (he : e ∈ r) : prev r e ∈ r := by
     · exact h
 
 theorem next_mem (r : Ring) (e : Nat) (he : e ∈ r) : next r e ∈ r := prev_mem r e he
+
+theorem nodup_tearOff (r : Ring) (hr : r.Nodup) (e : Option Nat) : (tearOff r e).Nodup := by
+  cases e with
+  | none => exact hr
+  | some e => exact hr.erase e
+
+theorem nodup_push (r : Ring) (hr : r.Nodup) (e : Nat) (he : e ∉ r) : (append [e] r).Nodup := by
+  refine nodup_append [e] r (by simp) hr ?_
+  intro x hx
+  have : x = e := by simpa using hx
+  subst this
+  exact he
+
+/-- The provider's move keeps the ring invariant: both rings stay duplicate-free and disjoint (no holder is ever in two
+rings or twice in one). -/
+theorem move_preserves_nodup (a b : Ring) (ha : a.Nodup) (hb : b.Nodup) (hd : ∀ x, x ∈ a → x ∉ b) (e : Nat) (he : e ∈ a) :
+    (tearOff a (some e)).Nodup ∧ (append [e] b).Nodup ∧ ∀ x, x ∈ tearOff a (some e) → x ∉ append [e] b := by
+  refine ⟨nodup_tearOff a ha (some e), nodup_push b hb e (hd e he), ?_⟩
+  intro x hx hx2
+  rw [mem_tearOff a ha] at hx
+  rw [mem_append] at hx2
+  rcases hx2 with h | h
+  · have : x = e := by simpa using h
+    exact hx.2 this
+  · exact hd x hx.1 h
 
 /-- non-vacuity: a concrete move between two rings -/
 example : tearOff [1, 2, 3] (some 2) = [1, 3] ∧ append [2] [7, 8] = [2, 7, 8] ∧ prev [1, 2, 3] 1 = 3 := by decide
